@@ -87,7 +87,7 @@ theorem untouched_after_return {c : Cfg} {s s' : St} (h : Reachable c s) (i : Su
       · rw [remove_not_mem k hk]; simp [setSub, upd, hki, hr]
     · simp at hs
   | cancel k =>
-    simp only [step, Option.some.injEq] at hs; subst hs
+    simp only [step] at hs; split at hs <;> simp at hs; subst hs
     by_cases hki : i = k
     · subst hki; simp [setSub, hr]
     · simp [setSub, upd, hki, hr]
@@ -159,6 +159,6 @@ theorem untouched_after_return {c : Cfg} {s s' : St} (h : Reachable c s) (i : Su
   | shutRecovered k => simp only [step] at hs; split at hs <;> simp at hs; subst hs; simp [setShut, hr]
   | shutSeeClosed k => simp only [step] at hs; split at hs <;> simp at hs; subst hs; simp [setShut, hr]
   | shutCtx k => simp only [step] at hs; split at hs <;> simp at hs; subst hs; simp [setShut, hr]
-  | shutCancel k => simp only [step, Option.some.injEq] at hs; subst hs; simp [setShut, hr]
+  | shutCancel k => simp only [step] at hs; split at hs <;> simp at hs; subst hs; simp [setShut, hr]
 
 end GoSSE.Props.C06
